@@ -8,6 +8,7 @@ import JP.Codec.TypedWire
 import JP.Codec.FloatDriver
 import JP.Codec.TypedDecodeDriver
 import JP.Heap.DriverHeap
+import JP.Heap.DriverHeapLegacy
 
 /-!
 # Request handling of the line-protocol driver (pure part)
@@ -831,7 +832,7 @@ def handleLApply (id : String) (args : List String) : String :=
         if limit ≤ 0 || rootish || d.isEmpty then .unspec
         else Legacy.c12 listed escapes s12 obs
       let _ := rest
-      reply id corr (showObs model) [("C18", v18), ("C12", v12), ("C04", if obs.bad then .viol "panic-or-hang" else .ok)]
+      Heap.tagCorr (Heap.Lg.heapAgrees neg limit d p) <| reply id corr (showObs model) [("C18", v18), ("C12", v12), ("C04", if obs.bad then .viol "panic-or-hang" else .ok)]
         ("L/" ++ specClass (if limit > 0 then s12 else s) ++ "/" ++ obsClass obs ++ "/" ++ kindsSig p ++ (if limit > 0 then "L" else ""))
     | _, _, _, _ => bad id "lapply-fields"
   | _ => bad id "lapply-arity"
